@@ -73,12 +73,20 @@ pub fn strategy() -> impl Strategy<Value = Case> {
             let nseq = pick(split, ncmd + 1);
             let mut seq_args = vec![];
             if nseq > 0 {
-                let cut = 1 + pick(split.rotate_left(7), nseq);
-                config.sequences.insert("s0".into(), names[..cut.min(nseq)].to_vec());
-                seq_args.push("s0".to_string());
-                if cut < nseq {
-                    config.sequences.insert("s1".into(), names[cut..nseq].to_vec());
-                    seq_args.push("s1".to_string());
+                // one to four sequences, given in an order that is neither the alphabetical one
+                // nor the one of their declaration
+                let seq_names = ["s-zeta", "s0", "s-mid", "a1"];
+                let parts = 1 + pick(split.rotate_left(7), nseq.min(4));
+                let mut start = 0;
+                for k in 0..parts {
+                    let end = if k + 1 == parts { nseq } else { start + (nseq - start) / (parts - k) };
+                    let end = end.max(start + 1).min(nseq);
+                    config.sequences.insert(seq_names[k].into(), names[start..end].to_vec());
+                    seq_args.push(seq_names[k].to_string());
+                    start = end;
+                    if start >= nseq {
+                        break;
+                    }
                 }
             }
             let mut cmd_args = names[nseq..].to_vec();
